@@ -10,6 +10,7 @@ import (
 	"os"
 	"runtime/debug"
 	"strconv"
+	"strings"
 
 	"dstverif/load"
 	"dstverif/report"
@@ -71,6 +72,11 @@ func main() {
 			fmt.Printf("LOAD-FAILED property=%s: %v\n", *prop, err)
 			code = 2
 			return
+		}
+		if len(load.Renames) > 0 {
+			// unexported declarations that were renamed are read under the names the rules know
+			run.Assumptions = append(run.Assumptions, "canonical names (alpha-renaming through the type checker's Defs/Uses, second load with an overlay): "+strings.Join(load.Renames, "; "))
+			fmt.Printf("NOTE property=%s: %d renamed declarations read under their recorded names: %s\n", *prop, len(load.Renames), strings.Join(load.Renames, "; "))
 		}
 		env, err := rules.NewEnv(prog, run, *tier)
 		if err != nil {
